@@ -571,6 +571,8 @@ def run_algebra(c):
     # f ** p is the p-fold product (every coefficient Stream is then needed in p factors); f ** -p is the
     # p-fold product of the inverted filter, causal when the leading numerator coefficient is invertible
     p, neg = c["pw"], c["pneg"]
+    if neg and any(cc[0] == "plainseq" for l in (fb_, fa_, gb_, ga_) for cc in l):
+      neg = False   # a one-term constant to a negative power is a float ((-1) ** -2 == 1.0): not among plain Fractions
     num = list(c["g"][1]) if neg else list(c["f"][0])
     den = list(c["f"][1]) if c["pden"] else list(one)
     if neg:
